@@ -5284,7 +5284,8 @@ void UniCompiler::emit_vm(UniOpVM op, const Vec& dst_, const Mem& src_, Alignmen
       case UniOpVM::kLoadInsertU32:
       case UniOpVM::kLoadInsertF32: {
         dst = dst.as<Vec>().xmm();
-        cc->emit(op_info.avx_inst_id, dst, dst, src, idx);
+        // INSERTPS encodes the destination element in imm[5:4].
+        cc->emit(op_info.avx_inst_id, dst, dst, src, op == UniOpVM::kLoadInsertF32 ? idx << 4 : idx);
         return;
       }
 
@@ -5447,6 +5448,11 @@ void UniCompiler::emit_vm(UniOpVM op, const Vec& dst_, const Mem& src_, Alignmen
       }
 
       case UniOpVM::kLoadInsertF32:
+        if (has_sse4_1()) {
+          // INSERTPS encodes the destination element in imm[5:4].
+          cc->emit(op_info.sse_inst_id, dst, src, idx << 4);
+          return;
+        }
         op = UniOpVM::kLoadInsertU32;
         [[fallthrough]];
 
